@@ -32,6 +32,7 @@ const (
 	vpFileClose
 	vpGCRecheck
 	vpFreeSend
+	vpCloseRetire2
 )
 
 func verifYield(point int, obj unsafe.Pointer) {}
